@@ -16,7 +16,7 @@ EXPLANATION = (
     "slots; it also reports whether the floating-point control state is saved (R2); stacks are mapped and unmapped with "
     "the same size and guard-page adjustment, and a thread object is recycled into the heap it is taken from (R3).")
 ASSUMPTIONS = ["the x86-64 Linux assembly backend is the one compiled (PIKA_HAVE_BOOST_CONTEXT off, checked)", "System V AMD64 ABI: rbx, rbp, r12-r15 and the MXCSR/x87 control bits are callee-saved"]
-FLOORS = {"C12.R1": 3, "C12.R2": 6, "C12.R3": 2, "C12.R4": 2}
+FLOORS = {"C12.R1": 3, "C12.R2": 6, "C12.R3": 2, "C12.R4": 2, "C12.R5": 1}
 
 TD = "pika::threads::detail::thread_data"
 CB = "pika::threads::coroutines::detail::context_base"
@@ -211,6 +211,39 @@ def run(rep, tier):
         rep.ok("C12.R3", rc[0], "create_thread_object and recycle_thread map stack sizes to the same heaps: %s" % sorted(t1))
     else:
         rep.bad("C12.R3", rc[0], rc[0].loc, "heap-selection", "a thread object can be recycled into a heap for another stack size than the one it is taken from (create: %s, recycle: %s): a task would run on a stack of the wrong size" % (t1, t2))
+
+    # ---- R5: a recycled object is owned exclusively before the queue lock is let go
+    rep.rule("C12.R5", "K1/K2 (exclusive ownership of a reused object and its stack): in thread_queue::create_thread_object a thread object looked at in a recycle heap "
+             "(back()) is removed from that heap (pop_back) before the queue lock is released or the function returns - otherwise a second creator or a concurrent "
+             "recycle_thread hands the same object (and stack) to two live tasks")
+    from engine.core import forward as _fw
+    n5 = 0
+    for fn in co:
+        peek = set((b, i) for b, i, e in fn.all_events() if e.get("k") == "call" and callee_short(e) in ("back", "front") and "heap" in P(e.get("recv") or {}))
+        take = set((b, i) for b, i, e in fn.all_events() if e.get("k") == "call" and callee_short(e) in ("pop_back", "pop_front", "erase") and "heap" in P(e.get("recv") or {}))
+        if not peek:
+            continue
+        is_rel = lambda e: (e.get("k") == "ctor" and e.get("rec") == "pika::detail::unlock_guard") or \
+            (e.get("k") == "call" and callee_short(e) == "unlock" and e.get("recv") is not None and strip(e["recv"]).get("k") == "var")
+
+        def tr(st, ev, pos):
+            if pos in peek:
+                return frozenset(["peeked"])
+            if pos in take:
+                return frozenset()
+            return st
+        before, bin_, _ = _fw(fn, frozenset(), tr, None, lambda a, b: a | b)
+        n5 += 1
+        probs = [loc_of(e) for b, i, e in fn.all_events() if is_rel(e) and "peeked" in (before.get((b, i)) or ())]
+        if "peeked" in (bin_.get(fn.exit) or ()):
+            probs.append("function exit")
+        if probs:
+            rep.bad("C12.R5", fn, probs[0] if ":" in probs[0] else fn.loc, "reused-object-still-in-heap", "create_thread_object reaches %s with the thread object it is about to "
+                    "reuse still sitting in the recycle heap: another creator or recycle_thread running meanwhile gives the same object and stack to a second live task" % probs[0])
+        else:
+            rep.ok("C12.R5", fn, "the reused thread object is popped from its heap before the queue lock is released")
+    if n5 < 1:
+        raise AnalysisBroken("C12.R5: no recycle-heap access in create_thread_object")
 
     # ---- R4: nobody keeps a handle on the thread-local slot across a context switch
     from .common import who_references
